@@ -209,6 +209,22 @@ def run(ctx: Ctx) -> RuleResult:
             res.finding(k.qual, eq.node, '__hash__ reads %s which __eq__ does not compare: two objects can be equal '
                         'with different hashes (set/dict lookups then depend on the hash seed)' % sorted(extra),
                         construct='hash%s vs eq%s' % (sorted(f_hash), sorted(f_eq)), props=props, module=k.module)
+        # two field comparisons are joined by `and` (an `or` between them makes objects equal that differ in one hashed field: set
+        # members vanish depending on the hash seed).  The identity shortcut `self is other or (...)` is the accepted `or`.
+        osn0 = eq.self_name() or 'self'
+        opar = (eq.positional_names() + ['other'])[0]
+
+        def field_cmp(e) -> bool:
+            return isinstance(e, ast.Compare) and len(e.ops) == 1 and isinstance(e.ops[0], (ast.Eq, ast.NotEq)) and \
+                any(isinstance(x, ast.Attribute) and isinstance(x.value, ast.Name) and x.value.id == osn0 for x in ast.walk(e.left)) and \
+                any(isinstance(x, ast.Attribute) and isinstance(x.value, ast.Name) and x.value.id == opar for x in ast.walk(e.comparators[0]))
+        for bo in [b for b in eq.body_nodes() if isinstance(b, ast.BoolOp) and isinstance(b.op, ast.Or)]:
+            n_f = [v for v in bo.values if field_cmp(v) and isinstance(v.ops[0], ast.Eq)]
+            ok_or = len(n_f) < 2
+            res.ob(site, 'no two field comparisons of %s are joined by `or`' % eq.qual, ok_or, props)
+            if not ok_or:
+                res.finding(k.qual, bo, '%s joins the comparisons of two fields by `or` (%s): objects that differ in one of the fields compare equal although their '
+                            'hashes differ' % (eq.qual, norm(bo)[:90]), construct='eq-or:%s' % norm(bo)[:60], props=props, module=k.module)
         # hashed fields are compared by value, not by identity (equal-valued distinct objects hash alike and must compare equal,
         # otherwise sets keep duplicates that the hash says are the same)
         osn = eq.self_name()
